@@ -11,4 +11,4 @@ import (
 )
 
 func checkDirectSign(*rapid.T, *bitcoin.SchnorrPrivateKey, []byte, []byte, []byte) {}
-func checkSigningScalar(*rapid.T, *bitcoin.SchnorrPrivateKey, *big.Int)              {}
+func checkSigningScalar(*rapid.T, *bitcoin.SchnorrPrivateKey, *big.Int)            {}
